@@ -429,6 +429,10 @@ func c01optStats(c *ctx, toks []string) {
 
 // corpus of minimised past failures (each one is the replay of a repaired or known difference)
 var c01corpus = []string{
+	// de67e1a strict-host: c.local has no root path and borrows the one of the default host (config.SyncConfig);
+	// the ingress of the default host leaves the class: c.local must be rebuilt (found by the C07 lint pass)
+	"svc+e/web!http:80:8080+adm:81:adm!- ep~e/web!10.1.3.1:r:web-1 cm~strict-host=true cls+hap:haproxy-ingress.github.io/controller ing+e/i1@1!-,hap!-!_>/:Exact:web:http!-!- ing+d/i3@1!haproxy,-!-!c.local>/x:Exact:web:80!-!- sync ing~e/i1@1!other,-!-!-!-!- sync",
+	"svc+e/web!http:80:8080!- ep~e/web!10.1.3.1:r:web-1 svc+e/api!http:80:8080!- ep~e/api!10.1.2.1:r:api-1 cm~strict-host=true ing+d/i3@1!haproxy,-!-!c.local>/x:Prefix:web:80!-!- sync ing+e/i1@2!haproxy,-!-!_>/:Prefix:api:80!-!- sync ing~e/i1@2!haproxy,-!-!_>/:Prefix:web:80!-!- sync ing-e/i1 sync",
 	// drain-support: an Endpoints update that only moves addresses between ready and not-ready (same address set);
 	// the re-parsed backend differs from the old one in server weights only (seed C03e)
 	"cm~drain-support=true svc+d/app!http:80:8080!- ep~d/app!10.0.1.1:r:app-1+10.0.1.2:r:app-2 ing+d/i1@1!haproxy,-!-!a.local>/:Prefix:app:80!-!- sync ep~d/app!10.0.1.1:r:app-1+10.0.1.2:n:app-2 sync ep~d/app!10.0.1.1:n:app-1+10.0.1.2:r:app-2 sync",
